@@ -102,6 +102,7 @@ void _ZNSt5dequeIN8Pistache3Tcp9Transport10WriteEntryESaIS3_EE9push_backEOS3_(u8
 void _ZNSt5dequeIN8Pistache3Tcp9Transport10WriteEntryESaIS3_EE12emplace_backIJS3_EEERS3_DpOT_(u8* d, u8* src) { _ZNSt5dequeIN8Pistache3Tcp9Transport10WriteEntryESaIS3_EE9push_backEOS3_(d, src); }
 /* ---- shared_ptr<Core> (identity only: the pointee is never touched, settle operations are recording stubs) */
 void _ZNSt10shared_ptrIN8Pistache5Async7Private4CoreEEC2EOS4_(u8* d, u8* s) { sp_move(d, s); }
+u8* _ZNSt10shared_ptrIN8Pistache5Async7Private4CoreEEaSEOS4_(u8* d, u8* s) { sp_move(d, s); return d; }   /* move assignment (used by code shapes that hand a deferred back) */
 void _ZNSt12__shared_ptrIN8Pistache5Async7Private4CoreELN9__gnu_cxx12_Lock_policyE2EED2Ev(u8* p) { (void)p; }
 void _ZNSt10shared_ptrIN8Pistache5Async7Private4CoreEED2Ev(u8* p) { (void)p; }
 static int core_index(u8* sp) { u8* c = *(u8**)sp; for (int i = 0; i < NE; i++) if (c == cores[i]) return i; return -1; }
